@@ -426,3 +426,75 @@ Definition diag_mk (voidcall : bool) (ops : list mkop) : list (Z * Z * Z * Z) :=
               | None => [(9, stack, 0, 0)]
               end)
            [0; 8; 16; 24; 4; 1; -8; -16].
+
+(* ------------------------------------------------------------------ *)
+(** * custom-data (work-stealing hint) carve-out of myth_create_ex_body, case custom_data_size > 0
+
+    The translator evaluates the statements of the current myth_create_ex_body (inlining helpers
+    with C's by-value parameter passing) over linear forms
+        l_stk * stk + l_const + l_r16 * round16 size + l_size * size
+    where [stk] is the stack top returned by the allocator (the block's size word lies at stk + 8)
+    and [size] = custom_data_size. *)
+
+Record lin := mkLin { l_stk : Z; l_const : Z; l_r16 : Z; l_size : Z }.
+
+Definition round16 (size : Z) : Z := (size + 15) / 16 * 16.
+
+Definition lin_eval (stk size : Z) (l : lin) : Z :=
+  l_stk l * stk + l_const l + l_r16 l * round16 size + l_size l * size.
+
+Record carve := mkCarve {
+  cd_empty_top : option lin;      (* stack top handed to myth_make_context_empty *)
+  cd_voidcall_top : option lin;   (* stack top handed to myth_make_context_voidcall *)
+  cd_ptr : option lin;            (* value stored in th->custom_data_ptr *)
+  cd_copy_dst : option lin;       (* destination and length of the memcpy of the hint *)
+  cd_copy_len : option lin;
+  cd_understood : bool            (* no statement touching these values was left uninterpreted *)
+}.
+
+Definition lin_eqb (a b : lin) : bool :=
+  (l_stk a =? l_stk b) && (l_const a =? l_const b) && (l_r16 a =? l_r16 b) && (l_size a =? l_size b).
+
+Definition SIZE_WORD_OFF : Z := 8.
+
+(** [top] = stk - (16-multiple) - k*round16 size, k >= 0, not above stk;
+    [ptr] at or above [top] for every size, 16-aligned relative to stk, and ptr + size <= stk + 8 *)
+Definition top_ok (t p : lin) : bool :=
+  (l_stk t =? 1) && (l_size t =? 0) && (l_const t mod 16 =? 0) &&
+  (l_r16 t <=? 0) && (l_const t + 16 * l_r16 t <=? 0) &&
+  (0 <=? l_r16 p - l_r16 t) && (0 <=? (l_const p - l_const t) + 16 * (l_r16 p - l_r16 t)).
+
+Definition ptr_ok (p : lin) : bool :=
+  (l_stk p =? 1) && (l_size p =? 0) && (l_const p mod 16 =? 0) &&
+  (l_r16 p + 1 <=? 0) && (l_const p + 16 * (l_r16 p + 1) <=? SIZE_WORD_OFF).
+
+Definition cd_check (c : carve) : bool :=
+  cd_understood c &&
+  match cd_empty_top c, cd_voidcall_top c, cd_ptr c, cd_copy_dst c, cd_copy_len c with
+  | Some te, Some tv, Some p, Some d, Some n =>
+      ptr_ok p && top_ok te p && top_ok tv p && lin_eqb d p && lin_eqb n (mkLin 0 0 0 1)
+  | _, _, _, _, _ => false
+  end.
+
+(** concrete search after a rejection: (10, size, first overlapping byte, one past the last) when
+    the hint region [ptr, ptr+size) reaches below the stack top handed to make_context (the new
+    thread's frames grow down from there), (11, size, ptr+size, stk+8) when it reaches the size
+    word, (12, size, top, 0) when the stack top loses 16-alignment, (13, ..) copy elsewhere *)
+Definition diag_cd (c : carve) : list (Z * Z * Z * Z) :=
+  match cd_empty_top c, cd_voidcall_top c, cd_ptr c with
+  | Some te, Some tv, Some p =>
+      flat_map (fun size =>
+        let stk := d_rsp0 in
+        let pv := lin_eval stk size p in
+        flat_map (fun t =>
+          let tvv := lin_eval stk size t in
+          (if pv <? tvv then [(10, size, pv, Z.min (pv + size) tvv)] else []) ++
+          (if tvv mod 16 =? 0 then [] else [(12, size, tvv, 0)])) [te; tv] ++
+        (if stk + SIZE_WORD_OFF <? pv + size then [(11, size, pv + size, stk + SIZE_WORD_OFF)] else []) ++
+        match cd_copy_dst c, cd_copy_len c with
+        | Some d, Some n => if (lin_eval stk size d =? pv) && (lin_eval stk size n =? size) then []
+                            else [(13, size, lin_eval stk size d, lin_eval stk size n)]
+        | _, _ => []
+        end) [1; 16; 24; 100; 512; 4000]
+  | _, _, _ => []
+  end.
